@@ -72,16 +72,6 @@ def w_forms(cfg):
             acc.bad(("" if cfg == "P" else "[C]") + "cprNL:argument_form:%s" % type(v).__name__,
                     {"cfg": cfg, "lat": lat, "lat_hex": lat.hex(), "form": type(v).__name__})
         acc.out.add((type(v).__name__, lat))
-    # callers that trap floating-point exceptions or run with warnings as errors (test suites do): same values, no raise
-    import warnings
-    for lat in (88.0, -89.5, 90.0, 87.0000001, -87.5, 87.0, 0.0, 45.0, 86.9, 1e-300, -0.0):
-        acc.n += 1
-        with np.errstate(all="raise"), warnings.catch_warnings():
-            warnings.simplefilter("error")
-            r = call(f, lat)
-        if r[0] != "ok" or r[1] not in C.NL_set(lat):
-            acc.bad(("" if cfg == "P" else "[C]") + "cprNL:argument_form:strict_fp_environment",
-                    {"cfg": cfg, "lat": float(lat), "lat_hex": float(lat).hex(), "form": "strict_fp"})
     # the documented parameter passed by name (a decorator that swallows the signature breaks exactly this)
     from engine.util import kw_call
     for lat in (52.0, 0.0, -87.0, 10, 89.5):
@@ -177,14 +167,6 @@ def run(ctx):
 
 
 def replay(case):
-    if case.get("form") == "strict_fp":
-        import warnings
-        lat = float.fromhex(case["lat_hex"])
-        with np.errstate(all="raise"), warnings.catch_warnings():
-            warnings.simplefilter("error")
-            r = call(pm(case["cfg"]).common.cprNL, lat)
-        bad = r[0] != "ok" or r[1] not in C.NL_set(lat)
-        return [(("" if case["cfg"] == "P" else "[C]") + "cprNL:argument_form:strict_fp_environment", case)] if bad else []
     if case.get("form") == "keyword":
         from engine.util import kw_call
         lat = float.fromhex(case["lat_hex"])
